@@ -48,6 +48,19 @@ func judge(sc *scen.Scenario, res *scen.Result, runErr error) (verdict string, e
 	if res.ConnectPanic != "" {
 		return "violation", fmt.Errorf("CreateConnection panicked: %s", res.ConnectPanic)
 	}
+	// the exchange under test is the one with the main server; companions (other clients of the process) have their own
+	var mainHS []*refsrv.HSObs
+	for _, h := range res.HS {
+		if h.Server == "" || h.Server == "dc-main" {
+			mainHS = append(mainHS, h)
+		}
+	}
+	res.HS = mainHS
+	for _, n := range res.Notes {
+		if strings.HasPrefix(n, "companion") && strings.Contains(n, "failed") {
+			return "violation", fmt.Errorf("a key exchange with a conformant server fails when %d other clients of the process exchange keys at the same time: %s", sc.Companions, n)
+		}
+	}
 	var serverSide string
 	for _, h := range res.HS {
 		if h.Err != "" {
@@ -115,6 +128,9 @@ func classes(sc *scen.Scenario, res *scen.Result, intended scen.Corner) []string
 		cls = append(cls, "draws:client-own")
 	}
 	cls = append(cls, fmt.Sprintf("g=%d", sc.HS.G))
+	if sc.Companions > 0 {
+		cls = append(cls, "concurrent-exchanges-in-process")
+	}
 	switch nb, na := len(sc.HS.ExtraFP), len(sc.HS.ExtraFPAfter); {
 	case nb == 0 && na == 0:
 		cls = append(cls, "fingerprints:only-the-known-key")
@@ -251,6 +267,11 @@ func TestC06(t *testing.T) {
 			sc, err := scen.BuildHandshake(rapidSource{t}, keys, scen.Corner{}, inject)
 			if err != nil {
 				t.Fatalf("INFRA: %v", err)
+			}
+			if sc.Draws == nil && rapid.IntRange(0, 2).Draw(t, "with-companions") > 0 {
+				// other clients of the same process exchange keys at the same time (small factorisations: the point is the overlap)
+				sc.Companions = rapid.SampledFrom([]int{3, 7, 15}).Draw(t, "companions")
+				sc.HS.P, sc.HS.Q = 1000003, 1000033
 			}
 			if err := evaluate(sc, scen.Corner{}); err != nil {
 				if strings.HasPrefix(err.Error(), "INFRA:") {
